@@ -328,6 +328,12 @@ def run(ctx):
         for k in [k for k in ctx.floors if k.startswith("R11.2.")]:
             ctx.floors["R12.9." + k[len("R11.2."):]] = ctx.floors.pop(k)
     ctx.guard("R12.9", "bounds", bounds)
+    ctx.rule("R12.11", "= R11.1 / R11.4 under this property: a mutable view of heap bytes is handed out only after make_owned (and at the owned buffer's own offset), and the zero-copy merge of push_tendril requires the other view to start exactly where this one ends in the same shared buffer - otherwise the resulting view reaches outside the allocation")
+    def cow_and_merge():
+        from . import C11 as c11
+        ctx.under("R12.11", lambda: c11.r11_1(ctx))
+        ctx.under("R12.11", lambda: c11.r11_1b(ctx))
+    ctx.guard("R12.11", "cow-and-merge", cow_and_merge)
     ctx.rule("R12.8", "no panic site inside Buf32 functions while a Vec aliasing the buffer is alive")
     ctx.guard("R12.8", "alias-window", lambda: r12_8(ctx))
     ctx.rule("R12.7", "push_bytes_without_validating lays the appended bytes out identically in its inline and heap branches; the heap write starts at (stored length - drop_left)")
